@@ -15,17 +15,21 @@ Ties (every run):
 from lib import common
 from lib.common import cps, uncps
 from corr import numlib, numerals, numkeys
+from lib import numcjkcorr
 
 PROP = 'C04'
 LEVEL = 'proof'
-PROPS_MODULES = ['RTV.Props.C04']
-GEN = ['nummaps', 'chartables']
+PROPS_MODULES = ['RTV.Props.C04', 'RTV.Props.C04Cjk']
+GEN = ['nummaps', 'chartables', 'numcjk']
 REQUIRED_THEOREMS = ['english_value', 'english_cardinal', 'english_ordinal', 'english_sub1000', 'spell_words_in_maps',
                      'spanish_sub1000', 'portuguese_sub1000', 'german_sub1000', 'dutch_sub1000',
                      'french_sub1000_partial', 'french_plural_cents_witness', 'italian_sub1000_partial',
                      'italian_accented_tre_witness', 'cjk_int_zh', 'cjk_int_ja_partial', 'cjk_ja_bare_unit_witness',
                      'cjk_round_div10', 'round_map_consistent', 'round_map_consistent_de_partial', 'german_milliard_witness',
-                     'spanish_sub1e6', 'portuguese_sub1e6', 'german_sub1e6', 'dutch_sub1e6']
+                     'spanish_sub1e6', 'portuguese_sub1e6', 'german_sub1e6', 'dutch_sub1e6',
+                     'cjk_walk_zh', 'cjk_walk_ja_partial', 'cjk_ordinal_is_cardinal', 'cjk_sign_restores', 'cjk_fraction_value',
+                     'cjk_double_value', 'cjk_percent_scaled', 'cjk_parse_zh', 'cjk_cheng_zhe', 'cjk_point_single_digit',
+                     'cjk_ja_percent_never_parses', 'cjk_digit_by_digit_witness']
 RULE = ('unit: __get_int_value on every English numeral of the pipeline set + seeded token lists over each '
         "culture's map keys; pipeline: English n<10^4 (quick: every 7th + boundaries; thorough: all), 10^k, 10^k±1, "
         'seeded n<10^15, x 8 variants x cardinal/ordinal x alone/carrier; es fr pt de it nl zh ja: generator output '
@@ -494,6 +498,7 @@ def correspond(ctx):
     unit_english(ctx, spelled)
     unit_tokens(ctx)
     unit_cjk(ctx)
+    numcjkcorr.unit(ctx)       # the whole CJKNumberParser (RTV.Model.NumCjk; theorems in Props/C04Cjk), zh-cn + ja-jp
     pipeline_english(ctx, spelled)
     pipeline_other(ctx)
     pipeline_big(ctx)
